@@ -101,6 +101,9 @@ def spaces(tier, seed):
                         describe='every signal of length 2..%d over {-1,0,1,2} x every alternating index sequence' % N,
                         bounds={'values': [-1, 0, 1, 2], 'max_len': N, 'sequences_at_max_len': 2 * len(subsets(N))})]
     if tier == 'quick':
+        out.append(ProductSpace('small{0,1,2}^7', [[0, 1, 2]] * 7, eval_small, min_len=7,
+                                describe='every signal of length 7 over {0,1,2} x every alternating index sequence '
+                                         '(three unevenly spaced crossings need 7 samples)'))
         al = S.alphabet(8)
         out.append(ProductSpace('words-W(8,5)', S.word_dims(al, 5), eval_word, bounds={'letters': al},
                                 describe='extrema from find_extrema on all 5-letter words, first_extrema x boundary'))
